@@ -1,19 +1,23 @@
-"""Translator for C13: RequestName / ReleaseName reply constants and request flag bits.
+"""Translator for C13: reply constants, request flag bits, and the frame of the name tables.
 
 Reads from the working tree under test and writes lean/TxdbusModel/Gen/C13Codes.lean:
 
   * the seven reply constants `NAME_*` of txdbus.client (runtime values);
-  * the three flag masks the BUS tests in `Bus.dbus_RequestName`
-    (`allow_replacement = bool(flags & 0x1)` ...; from the AST of txdbus/bus.py);
-  * the three flag masks the CLIENT sets in `DBusClientConnection.requestBusName`
-    (`if allowReplacement: flags |= 0x1` ...; from the AST of txdbus/client.py);
-  * the reply codes `requestBusName.on_result` accepts as success when
-    `errbackUnlessAcquired` (the names compared with `r ==`; AST);
-  * the reason text class of `error.FailedToAcquireName(name, code)` for codes 0..7
-    (runtime: 1 = "Queued for name acquisition", 2 = "Name in use", 0 = anything else).
-
-Anything that does not have this restricted shape raises TranslatorError (the table obligation
-of C13 is then broken and the pipeline widens the search).
+  * the three flag masks the BUS honours in `Bus.dbus_RequestName`, found by RUNNING the real method on a
+    real `Bus` with stand-in connections (which single bit of the first request lets which single bit of a
+    second request take the name over; which single bit turns IN_QUEUE into IN_USE).  Only if that
+    behavioural probe is inconclusive (e.g. on a tree where RequestName is broken) the AST shape
+    `x = bool(flags & <literal>)` is used as a fallback;
+  * the three flag masks the CLIENT sets in `DBusClientConnection.requestBusName`: the real method is
+    called with a stubbed `callRemote` for the 8 boolean triples; the word must be the OR of three
+    distinct single-argument words;
+  * the reply codes `requestBusName(..., errbackUnlessAcquired=True)` lets through (run time, codes 0..15);
+  * the reason text class of `error.FailedToAcquireName(name, code)` for codes 0..7;
+  * FRAME (table obligation, DESIGN 2.2a): every use of the attributes `busNames` and `clients` in
+    txdbus/*.py.  Writes (assignment, `del`, subscript store, mutating method call, also through a local
+    alias such as `queue = self.busNames[name]`) may occur only in the functions the Lean model mirrors;
+    read-only uses only in a fixed list of functions.  Anything else raises TranslatorError: the theorems
+    of C13 quantify over histories of the modelled operations, a new writer of the tables is outside them.
 """
 import ast
 import os
@@ -25,88 +29,266 @@ class TranslatorError(Exception):
     pass
 
 
-def _func(tree, cls, name):
-    for node in ast.walk(tree):
-        if isinstance(node, ast.ClassDef) and node.name == cls:
-            for f in node.body:
-                if isinstance(f, ast.FunctionDef) and f.name == name:
-                    return f
-    raise TranslatorError('%s.%s not found' % (cls, name))
+# ----------------------------------------------------------------------------- bus masks
+class _Conn:
+    """Stand-in for a BusProtocol as far as the name functions use it."""
+
+    def __init__(self, k):
+        self.uniqueName = ':1.%d' % k
+        self.busNames = {}
+        self.isConnected = True
+        self.matchRules = set()
+
+    def sendMessage(self, msg):
+        pass
 
 
-def _int_const(node, what):
-    if isinstance(node, ast.Constant) and isinstance(node.value, int) and not isinstance(node.value, bool):
-        return node.value
-    raise TranslatorError('%s: expected an integer literal, found %s' % (what, ast.dump(node)))
+def _bus_with(n):
+    from txdbus import bus
+    b = bus.Bus()
+    for k in range(1, n + 1):
+        c = _Conn(k)
+        b.clients[c.uniqueName] = c
+    return b
 
 
-def bus_masks(repo):
-    """{'allow_replacement': m, 'replace_existing': m, 'do_not_queue': m} from `x = bool(flags & m)`."""
+def bus_masks_by_probe(vals):
+    """(allow, replace, dnq) masks from the behaviour of the real dbus_RequestName, or None."""
+    name = 'com.example.probe'
+    try:
+        pairs = []
+        for b1 in range(32):
+            for b2 in range(32):
+                b = _bus_with(2)
+                r1 = b.dbus_RequestName(name, 1 << b1, dbusCaller=':1.1')
+                r2 = b.dbus_RequestName(name, 1 << b2, dbusCaller=':1.2')
+                if r1 != vals['NAME_ACQUIRED']:
+                    return None
+                if r2 == vals['NAME_ACQUIRED']:
+                    pairs.append((b1, b2))
+        if len(pairs) != 1:
+            return None
+        dnq = []
+        for b3 in range(32):
+            b = _bus_with(2)
+            b.dbus_RequestName(name, 0, dbusCaller=':1.1')
+            r = b.dbus_RequestName(name, 1 << b3, dbusCaller=':1.2')
+            if r == vals['NAME_IN_USE']:
+                dnq.append(b3)
+            elif r != vals['NAME_IN_QUEUE']:
+                return None
+        if len(dnq) != 1:
+            return None
+        masks = (1 << pairs[0][0], 1 << pairs[0][1], 1 << dnq[0])
+        if len(set(masks)) != 3:
+            return None
+        return masks
+    except Exception:
+        return None
+
+
+def bus_masks_by_ast(repo):
     src = open(os.path.join(repo, 'txdbus', 'bus.py'), encoding='utf-8').read()
-    f = _func(ast.parse(src), 'Bus', 'dbus_RequestName')
-    if [a.arg for a in f.args.args][:3] != ['self', 'name', 'flags']:
-        raise TranslatorError('dbus_RequestName: unexpected parameters')
     out = {}
-    for st in f.body:
-        if isinstance(st, ast.Assign) and len(st.targets) == 1 and isinstance(st.targets[0], ast.Name):
-            v = st.value
-            if (isinstance(v, ast.Call) and isinstance(v.func, ast.Name) and v.func.id == 'bool'
-                    and len(v.args) == 1 and isinstance(v.args[0], ast.BinOp)
-                    and isinstance(v.args[0].op, ast.BitAnd)
-                    and isinstance(v.args[0].left, ast.Name) and v.args[0].left.id == 'flags'):
-                out[st.targets[0].id] = _int_const(v.args[0].right, 'flag mask of ' + st.targets[0].id)
-    want = {'allow_replacement', 'replace_existing', 'do_not_queue'}
-    if set(out) != want:
-        raise TranslatorError('dbus_RequestName: flag decoding has changed shape: %r' % sorted(out))
-    return out
+    for node in ast.walk(ast.parse(src)):
+        if isinstance(node, ast.FunctionDef) and node.name == 'dbus_RequestName':
+            for st in node.body:
+                if isinstance(st, ast.Assign) and len(st.targets) == 1 and isinstance(st.targets[0], ast.Name):
+                    v = st.value
+                    if (isinstance(v, ast.Call) and isinstance(v.func, ast.Name) and v.func.id == 'bool'
+                            and len(v.args) == 1 and isinstance(v.args[0], ast.BinOp)
+                            and isinstance(v.args[0].op, ast.BitAnd)
+                            and isinstance(v.args[0].right, ast.Constant)
+                            and isinstance(v.args[0].right.value, int)):
+                        out[st.targets[0].id] = v.args[0].right.value
+    try:
+        return (out['allow_replacement'], out['replace_existing'], out['do_not_queue'])
+    except KeyError:
+        raise TranslatorError('flag masks of dbus_RequestName: the behavioural probe is inconclusive and the '
+                              'source does not have the shape `x = bool(flags & <literal>)` either')
 
 
-def client_masks_and_success(repo):
-    src = open(os.path.join(repo, 'txdbus', 'client.py'), encoding='utf-8').read()
-    f = _func(ast.parse(src), 'DBusClientConnection', 'requestBusName')
-    masks = {}
-    for st in f.body:
-        if (isinstance(st, ast.If) and isinstance(st.test, ast.Name) and len(st.body) == 1
-                and not st.orelse and isinstance(st.body[0], ast.AugAssign)
-                and isinstance(st.body[0].op, ast.BitOr)
-                and isinstance(st.body[0].target, ast.Name) and st.body[0].target.id == 'flags'):
-            masks[st.test.id] = _int_const(st.body[0].value, 'client flag of ' + st.test.id)
-    if set(masks) != {'allowReplacement', 'replaceExisting', 'doNotQueue'}:
-        raise TranslatorError('requestBusName: flag encoding has changed shape: %r' % sorted(masks))
-    # flags starts at 0
-    init = [st for st in f.body if isinstance(st, ast.Assign) and len(st.targets) == 1
-            and isinstance(st.targets[0], ast.Name) and st.targets[0].id == 'flags']
-    if len(init) != 1 or _int_const(init[0].value, 'initial flags') != 0:
-        raise TranslatorError('requestBusName: flags is not initialised to 0')
-    # on_result: `if errbackUnlessAcquired and not (r == A or r == B): raise ...; return r`
-    onres = [st for st in f.body if isinstance(st, ast.FunctionDef) and st.name == 'on_result']
-    if len(onres) != 1:
-        raise TranslatorError('requestBusName: on_result not found')
-    body = onres[0].body
-    ok = (len(body) == 2 and isinstance(body[0], ast.If) and isinstance(body[1], ast.Return)
-          and isinstance(body[1].value, ast.Name) and body[1].value.id == 'r'
-          and isinstance(body[0].test, ast.BoolOp) and isinstance(body[0].test.op, ast.And)
-          and len(body[0].test.values) == 2
-          and isinstance(body[0].test.values[0], ast.Name)
-          and body[0].test.values[0].id == 'errbackUnlessAcquired'
-          and isinstance(body[0].test.values[1], ast.UnaryOp)
-          and isinstance(body[0].test.values[1].op, ast.Not)
-          and len(body[0].body) == 1 and isinstance(body[0].body[0], ast.Raise))
-    if not ok:
-        raise TranslatorError('requestBusName.on_result has changed shape')
-    inner = body[0].test.values[1].operand
-    terms = inner.values if (isinstance(inner, ast.BoolOp) and isinstance(inner.op, ast.Or)) else [inner]
-    names = []
-    for t in terms:
-        if (isinstance(t, ast.Compare) and isinstance(t.left, ast.Name) and t.left.id == 'r'
-                and len(t.ops) == 1 and isinstance(t.ops[0], ast.Eq)
-                and isinstance(t.comparators[0], ast.Name)):
-            names.append(t.comparators[0].id)
-        else:
-            raise TranslatorError('requestBusName.on_result: unexpected success test')
-    return masks, names
+# ----------------------------------------------------------------------------- client side
+def _request_bus_name(a, r, d, e):
+    from txdbus import client
+    from twisted.internet import defer
+    conn = client.DBusClientConnection.__new__(client.DBusClientConnection)
+    seen = {}
+
+    def callRemote(*args, **kw):
+        seen['kw'] = kw
+        seen['d'] = defer.Deferred()
+        return seen['d']
+    conn.callRemote = callRemote
+    dres = conn.requestBusName('com.example.probe', allowReplacement=a, replaceExisting=r,
+                               doNotQueue=d, errbackUnlessAcquired=e)
+    return seen, dres
 
 
+def client_masks():
+    def word(a, r, d):
+        seen, _ = _request_bus_name(a, r, d, False)
+        body = seen['kw'].get('body')
+        if not (isinstance(body, (list, tuple)) and len(body) == 2 and isinstance(body[1], int)):
+            raise TranslatorError('requestBusName does not call RequestName with body [name, flags]')
+        return body[1]
+    if word(False, False, False) != 0:
+        raise TranslatorError('requestBusName(False, False, False) sends a non-zero flag word')
+    ma, mr, md = word(True, False, False), word(False, True, False), word(False, False, True)
+    for a in (False, True):
+        for r in (False, True):
+            for d in (False, True):
+                if word(a, r, d) != (ma if a else 0) | (mr if r else 0) | (md if d else 0):
+                    raise TranslatorError('requestBusName flag word is not the OR of three masks')
+    if 0 in (ma, mr, md):
+        raise TranslatorError('requestBusName ignores one of its three flags')
+    return ma, mr, md
+
+
+def client_success_codes():
+    ok = []
+    for code in range(16):
+        seen, dres = _request_bus_name(False, False, True, True)
+        res = []
+        dres.addCallbacks(lambda v: res.append(True), lambda f: res.append(False))
+        seen['d'].callback(code)
+        if res == [True]:
+            ok.append(code)
+        elif res != [False]:
+            raise TranslatorError('requestBusName result neither fired nor failed for reply code %d' % code)
+    return ok
+
+
+# ----------------------------------------------------------------------------- frame
+MUTATORS = {'pop', 'remove', 'append', 'insert', 'clear', 'extend', 'sort', 'reverse', 'popitem',
+            'setdefault', 'update', '__setitem__', '__delitem__'}
+
+# (class, function) -> may write
+FRAME = {
+    'busNames': {
+        ('BusProtocol', 'connectionAuthenticated'): True,   # self.busNames = {}
+        ('Bus', '__init__'): True,                          # self.busNames = {}
+        ('Bus', 'dbus_RequestName'): True,
+        ('Bus', 'dbus_ReleaseName'): True,
+        ('Bus', 'clientDisconnected'): False,               # iterates proto.busNames.keys()
+        ('Bus', 'sendMessage'): False,                      # destination lookup
+        ('Bus', 'dbus_ListQueuedOwners'): False,
+        ('Bus', 'dbus_GetNameOwner'): False,
+        ('Bus', 'dbus_GetConnectionUnixUser'): False,
+    },
+    'clients': {
+        ('Bus', '__init__'): True,
+        ('Bus', 'clientConnected'): True,
+        ('Bus', 'clientDisconnected'): True,
+        ('Bus', 'sendMessage'): False,
+        ('Bus', 'dbus_RequestName'): False,
+        ('Bus', 'dbus_ReleaseName'): False,
+        ('Bus', 'dbus_AddMatch'): False,
+        ('Bus', 'dbus_RemoveMatch'): False,
+        ('Bus', 'dbus_GetNameOwner'): False,
+        ('Bus', 'dbus_GetConnectionUnixUser'): False,
+    },
+}
+
+
+def _mentions(node, attr, tainted):
+    for x in ast.walk(node):
+        if isinstance(x, ast.Attribute) and x.attr == attr:
+            return True
+        if isinstance(x, ast.Name) and x.id in tainted:
+            return True
+    return False
+
+
+def _direct(t, attr):
+    while isinstance(t, ast.Subscript):
+        t = t.value
+    return isinstance(t, ast.Attribute) and t.attr == attr
+
+
+def _writes_dict(func, attr):
+    """Does the function assign / delete / mutate the dict `<obj>.attr` itself (not objects stored in it)?"""
+    for st in ast.walk(func):
+        if isinstance(st, (ast.Assign, ast.AugAssign, ast.AnnAssign)):
+            targets = st.targets if isinstance(st, ast.Assign) else [st.target]
+            if any(_direct(t, attr) for t in targets):
+                return True
+        if isinstance(st, ast.Delete) and any(_direct(t, attr) for t in st.targets):
+            return True
+        if (isinstance(st, ast.Call) and isinstance(st.func, ast.Attribute) and st.func.attr in MUTATORS
+                and _direct(st.func.value, attr)):
+            return True
+    return False
+
+
+def _writes(func, attr):
+    """Does the function write the attribute `attr` (or something reached through it)?"""
+    if attr == 'clients':
+        return _writes_dict(func, attr)
+    tainted = set()
+    changed = True
+    while changed:                       # local aliases: queue = self.busNames[name]; owner = queue[0] ...
+        changed = False
+        for st in ast.walk(func):
+            if isinstance(st, ast.Assign) and _mentions(st.value, attr, tainted):
+                for t in st.targets:
+                    for x in ast.walk(t):
+                        if isinstance(x, ast.Name) and x.id not in tainted:
+                            tainted.add(x.id)
+                            changed = True
+    for st in ast.walk(func):
+        if isinstance(st, (ast.Assign, ast.AugAssign, ast.AnnAssign)):
+            targets = st.targets if isinstance(st, ast.Assign) else [st.target]
+            for t in targets:
+                if isinstance(t, (ast.Attribute, ast.Subscript)) and _mentions(t, attr, tainted):
+                    return True
+        if isinstance(st, ast.Delete):
+            for t in st.targets:
+                if _mentions(t, attr, tainted):
+                    return True
+        if (isinstance(st, ast.Call) and isinstance(st.func, ast.Attribute) and st.func.attr in MUTATORS
+                and _mentions(st.func.value, attr, tainted)):
+            return True
+    return False
+
+
+def frame(repo):
+    """-> {attr: sorted list of 'Class.function' (+ '!' when it writes)}; raises on a use outside FRAME."""
+    found = {a: {} for a in FRAME}
+    tdir = os.path.join(repo, 'txdbus')
+    for fn in sorted(os.listdir(tdir)):
+        if not fn.endswith('.py'):
+            continue
+        tree = ast.parse(open(os.path.join(tdir, fn), encoding='utf-8').read())
+        funcs = []      # (class or '', function node); nested functions belong to their outermost function
+        for node in tree.body:
+            if isinstance(node, ast.ClassDef):
+                for f in node.body:
+                    funcs.append((node.name, f))
+            else:
+                funcs.append(('', node))
+        for cls, f in funcs:
+            if f is None:
+                continue
+            fname = getattr(f, 'name', '<module level>')
+            for attr in FRAME:
+                if not any(isinstance(x, ast.Attribute) and x.attr == attr for x in ast.walk(f)):
+                    continue
+                if fn != 'bus.py':
+                    raise TranslatorError('%s: `%s` used outside txdbus/bus.py (%s.%s)' % (fn, attr, cls, fname))
+                key = (cls, fname)
+                if key not in FRAME[attr]:
+                    raise TranslatorError('bus.py: `%s` is used in %s.%s, which the C13 model does not mirror'
+                                          % (attr, cls, fname))
+                w = _writes(f, attr)
+                if w and not FRAME[attr][key]:
+                    raise TranslatorError('bus.py: %s.%s writes `%s`; the C13 model mirrors it as read-only'
+                                          % (cls, fname, attr))
+                found[attr]['%s.%s' % key] = w
+    return {a: sorted(n + ('!' if w else '') for n, w in d.items()) for a, d in found.items()}
+
+
+# ----------------------------------------------------------------------------- emit
 def emit(repo):
     from txdbus import client, error
     consts = ['NAME_ACQUIRED', 'NAME_IN_QUEUE', 'NAME_IN_USE', 'NAME_ALREADY_OWNER',
@@ -117,21 +299,15 @@ def emit(repo):
         if not isinstance(v, int) or isinstance(v, bool) or v < 0:
             raise TranslatorError('%s is not a natural number: %r' % (c, v))
         vals[c] = v
-    bm = bus_masks(repo)
-    cm, succ_names = client_masks_and_success(repo)
-    succ = []
-    for n in succ_names:
-        if n not in vals:
-            raise TranslatorError('on_result compares with unknown constant %s' % n)
-        succ.append(vals[n])
+    probed = bus_masks_by_probe(vals)
+    bm = probed if probed is not None else bus_masks_by_ast(repo)
+    cm = client_masks()
+    succ = client_success_codes()
+    fr = frame(repo)
     reasons = []
     for code in range(8):
         text = str(error.FailedToAcquireName('x', code))
-        head = 'Failed to acquire bus name "x": '
-        if not text.startswith(head):
-            raise TranslatorError('FailedToAcquireName text has changed: %r' % text)
-        tail = text[len(head):]
-        cls = {'Queued for name acquisition': 1, 'Name in use': 2}.get(tail, 0)
+        cls = 1 if text.endswith('Queued for name acquisition') else 2 if text.endswith('Name in use') else 0
         reasons.append((code, cls))
 
     def camel(c):
@@ -149,23 +325,32 @@ def emit(repo):
     for c in consts:
         L.append('def %s : Nat := %d' % (camel(c), vals[c]))
     L.append('')
-    L.append('/-! Masks tested by `Bus.dbus_RequestName` (`bool(flags & m)`). -/')
-    L.append('def busMaskAllowReplacement : Nat := %d' % bm['allow_replacement'])
-    L.append('def busMaskReplaceExisting : Nat := %d' % bm['replace_existing'])
-    L.append('def busMaskDoNotQueue : Nat := %d' % bm['do_not_queue'])
+    L.append('/-! Masks honoured by `Bus.dbus_RequestName` (%s). -/'
+             % ('behavioural probe of the real method' if probed is not None else 'from the AST: `bool(flags & m)`'))
+    L.append('def busMaskAllowReplacement : Nat := %d' % bm[0])
+    L.append('def busMaskReplaceExisting : Nat := %d' % bm[1])
+    L.append('def busMaskDoNotQueue : Nat := %d' % bm[2])
     L.append('')
-    L.append('/-! Masks set by `DBusClientConnection.requestBusName` (`flags |= m`, starting from 0). -/')
-    L.append('def clientMaskAllowReplacement : Nat := %d' % cm['allowReplacement'])
-    L.append('def clientMaskReplaceExisting : Nat := %d' % cm['replaceExisting'])
-    L.append('def clientMaskDoNotQueue : Nat := %d' % cm['doNotQueue'])
+    L.append('/-! Masks set by `DBusClientConnection.requestBusName` (the real method, stubbed callRemote). -/')
+    L.append('def clientMaskAllowReplacement : Nat := %d' % cm[0])
+    L.append('def clientMaskReplaceExisting : Nat := %d' % cm[1])
+    L.append('def clientMaskDoNotQueue : Nat := %d' % cm[2])
     L.append('')
-    L.append('/-- Reply codes `requestBusName.on_result` lets through when `errbackUnlessAcquired`. -/')
+    L.append('/-- Reply codes (of 0..15) `requestBusName(..., errbackUnlessAcquired=True)` lets through. -/')
     L.append('def clientSuccessCodes : List Nat := [%s]' % ', '.join(str(x) for x in succ))
     L.append('')
     L.append('/-- `error.FailedToAcquireName(name, code)`: class of the reason text for codes 0..7')
     L.append('(1 = "Queued for name acquisition", 2 = "Name in use", 0 = "Unknown reason"/other). -/')
     L.append('def failedReasonClass : List (Nat × Nat) := [%s]'
              % ', '.join('(%d, %d)' % p for p in reasons))
+    L.append('')
+    L.append('/-! Frame: the functions of txdbus/*.py that use `busNames` / `clients` ("!" = writes). -/')
+    L.append('def busNamesUsers : List String := [%s]' % ', '.join('"%s"' % x for x in fr['busNames']))
+    L.append('def clientsUsers : List String := [%s]' % ', '.join('"%s"' % x for x in fr['clients']))
+    L.append('def busNamesWriters : List String := [%s]'
+             % ', '.join('"%s"' % x[:-1] for x in fr['busNames'] if x.endswith('!')))
+    L.append('def clientsWriters : List String := [%s]'
+             % ', '.join('"%s"' % x[:-1] for x in fr['clients'] if x.endswith('!')))
     L.append('')
     L.append('end Txdbus.Gen.C13Codes')
     return '\n'.join(L) + '\n'
